@@ -6,3 +6,12 @@ open BHS.Props.C19
 #print axioms C19_nonpos
 #print axioms C19_antitone
 #print axioms C19_log2
+#print axioms C19_work_antitone_generated
+#print axioms C19_work_zero_generated
+#print axioms C19_work_is_floor
+#print axioms C19_work_floor_unique
+#print axioms C19_work_floor_generated
+#print axioms C19_work_pos_iff
+#print axioms C19_log2_bracket
+#print axioms C19_log2_le_31
+#print axioms C19_log2_mono
